@@ -7,8 +7,8 @@
    C04_machine: the implementation's closures (nested traversers driven by next() with their budgets) compute
    exactly this at every nesting depth, or end in a budget exception (has_refine). *)
 From Coq Require Import List ZArith String Bool PArith.
-From TP Require Import Json PyPrim Machine Api Spec SpecHas.
-From TP.proofs Require Import RefineBase Refine NextLayer Iterate WfRun Query SpecLemmas Top HasScan HasLoop HasRefine ApiTop HasLemmas.
+From TP Require Import Json PyPrim Machine Api Spec SpecHas SpecSet.
+From TP.proofs Require Import RefineBase Refine NextLayer Iterate WfRun Query SpecLemmas Top HasScan HasLoop HasRefine ApiTop HasLemmas HasPresence.
 Import ListNotations.
 
 Theorem C04_machine : forall B H n h (m : jtm) tr, wf m ->
@@ -72,3 +72,16 @@ Theorem C04_not : forall n h c,
     end.
 Proof. exact has_not_eq. Qed.
 Print Assumptions C04_not.
+
+(* the existence form counts presence, not truthiness: a member holding null / 0 / False / '' / [] / {} is present *)
+Theorem C04_existence_is_presence : forall n (p : list (vertex (@hpred json))) c,
+  kipath p = true ->
+  fst (seval_h (S n) (HHas p None []) c) =
+  Ok (JBool (match lookup (cdata c) p with Some _ => true | None => false end)).
+Proof. exact has_presence. Qed.
+Print Assumptions C04_existence_is_presence.
+
+Example C04_null_member_is_present :
+  let c := root_ctx (JDict 1 [("x"%string, JNull)]) in
+  forall n, fst (seval_h (S n) (HHas [VKey "x"] None []) c) = Ok (JBool true).
+Proof. exact has_presence_null. Qed.
